@@ -31,13 +31,16 @@ SetValued ==
       t1 \in {"inode", "isubnode", "isubsub", "idia", "idl"}, h1 \in {"iholder", "isub"},
       x1 \in {<<>>, <<1>>, <<2>>, <<1, 2>>, <<1, 1>>}, y1 \in Opt({1}),
       x2 \in {<<>>, <<1>>, <<2>>, <<1, 2>>, <<1, 1>>}, y2 \in Opt({1}) }
+(* a recursive entity: every assignment of parents among three instances, an instance being its own parent included *)
+Rec ==
+  { <<I(1, "irec", p1, <<>>), I(2, "irec", p2, <<>>), I(3, "irec", p3, <<>>)>> : p1 \in Opt({1, 2, 3}), p2 \in Opt({1, 2}), p3 \in Opt({3, 1}) }
 Single ==
   { <<I(1, "ione", <<>>, <<>>), I(2, "ione", <<>>, <<>>), I(3, "ilink", <<t>>, y)>> : t \in {1, 2}, y \in Opt({1, 2}) }
   \cup { <<I(1, "ione", <<>>, <<>>), I(2, "ione", <<>>, <<>>), I(3, "ilink", <<1>>, y), I(4, "ilink", <<2>>, z)>> : y \in Opt({1, 2}), z \in Opt({1}) }
 Two ==
   { <<I(1, "itwo", <<>>, <<>>), I(2, "itwo", <<>>, <<>>), I(3, "ipair", <<t>>, y), I(4, "ipair", <<u>>, z)>> :
       t \in {1, 2}, u \in {1, 2}, y \in Opt({1, 2}), z \in Opt({1}) }
-Pops == IF Family = "plain" THEN Plain \cup Cyc \cup Redecl ELSE SetValued \cup Single \cup Two
+Pops == IF Family = "plain" THEN Plain \cup Cyc \cup Redecl ELSE SetValued \cup Single \cup Two \cup Rec
 (* every population in one spelling picked by a hash of its shape; a probe subset (and, when Deep, every        *)
 (* population) in every layout; string forms rotate with the layout                                            *)
 RECURSIVE Weight(_, _)
